@@ -71,6 +71,7 @@ fn real_main(args: &[String]) -> i32 {
                 }
             }
         }
+        Some("crash-driver") => vharness::props::c06::driver_main(&args[2..]),
         _ => usage(),
     }
 }
